@@ -33,7 +33,7 @@ META = {
              "packet in stream order over a list of files and rejects differing field sets; and that string / binary cells are lossless EXCEPT for the "
              "recorded known finding (values ending in NUL are truncated by numpy's S / U dtypes).  Array construction inside numpy / xarray is "
              "covered only through the stated contracts and by replaying counterexamples through the real create_dataset.  END TO END (dataset-e2e): the real "
-             "create_dataset opens a SYMBOLIC packet file (flat template TD, APIDs in {5, 300}; quick 2 packets, thorough 3), runs the real generators with "
+             "create_dataset opens a SYMBOLIC packet file (flat template TD, APIDs in {5, 300}; 2 packets per file), runs the real generators with "
              "packet_generator_kwargs (record prefix, chunked reads, bad-packet filter), and z3 proves that the packets reaching the accumulation are exactly "
              "those Spec-XTCE decodes and that every column of every per-APID dataset holds exactly those packets' values (raw values on request), in file order.",
     "trusted": "numpy's documented dtype ranges and fixed-width S/U semantics; xarray.Dataset stores the arrays it is given; z3; BV proxies",
@@ -470,7 +470,7 @@ def jobs(tier):
             {"name": "accumulate", "h": "accumulate", "params": {}, "split": 32, "chunk": 40, "must_reach": ["dataset", "exc:ValueError"]}] + [
         {"name": f"dataset-e2e-{'-'.join(map(str, lens))}-r{r}-skip{k}", "h": "dataset-e2e", "params": {"template": "TD", "lens": lens, "flagsets": [0, 1], "read": r, "skip": k},
          "split": 16, "chunk": 25, "max_paths": 200000, "must_reach": []}
-        for lens, r, k in (([10, 10], 7, 4), ([11, 10], None, 0)) + ((([10, 10], 1, 2), ([10, 9], 20, 4), ([10, 10], 16, 10), ([10, 10, 10], None, 0)) if tier != "quick" else ())]
+        for lens, r, k in (([10, 10], 7, 4), ([11, 10], None, 0)) + ((([10, 9], 20, 4), ([10, 10], 16, 10), ([10, 10], 3, 2)) if tier != "quick" else ())]
 
 
 def vacuity_jobs():
